@@ -55,7 +55,9 @@ def encoded_items(cat, rng):
     """Huffman: read items taken from an *encoded* region are one more input form; what a region learns from them
     (its statistics) must be what it learns from slices — visible one merge generation later"""
     b = RB(ID, cat, rng)
-    b.idx_cmp = "idx"
+    # the bit positions of an encoded item depend on how the builder breaks ties between equally good codes, which
+    # the property does not fix: index values are compared between the two real regions (twin), not with the model
+    b.idx_cmp = "status"
     pool = encoded_region(b, rng, "s")
     for _ in range(2 + rng.below(8)):
         v = rng.pick(pool)
@@ -65,7 +67,7 @@ def encoded_items(cat, rng):
     canon = cat["forms"][0]
     for k, v in enumerate(b.h["s"].vals):
         rp = rng.pick(["backed", "borrowed"])
-        na = b.raw("pushitem a s #%d %s" % (k, rp), ("prefix", "idx"), cmp="idx", sig="item-form-index@" + b.entry, shape="pushitem")
+        na = b.raw("pushitem a s #%d %s" % (k, rp), ("prefix", "idx"), cmp="status", sig="item-form-index@" + b.entry, shape="pushitem")
         b.h["a"].vals.append(v)
         kt, nt = b.push("t", v, canon)
         b.s.lines[na].exp = ("same", nt)
